@@ -213,6 +213,32 @@ func content(b []byte) string {
 	return fmt.Sprintf("c%dn%d", int(b[0]-'a'), len(b))
 }
 
+// modeStr prints the full mode of a node as the tar header denotes it: permission bits plus setuid (04000), setgid (02000)
+// and sticky (01000), in octal; any other bit besides the type bit of the node's kind is appended in hex (never expected).
+func modeStr(m fs.FileMode) string {
+	u := uint32(m.Perm())
+	if m&fs.ModeSetuid != 0 {
+		u |= 0o4000
+	}
+	if m&fs.ModeSetgid != 0 {
+		u |= 0o2000
+	}
+	if m&fs.ModeSticky != 0 {
+		u |= 0o1000
+	}
+	known := fs.ModePerm | fs.ModeSetuid | fs.ModeSetgid | fs.ModeSticky
+	switch {
+	case m&fs.ModeDir != 0:
+		known |= fs.ModeDir
+	case m&fs.ModeSymlink != 0:
+		known |= fs.ModeSymlink
+	}
+	if extra := m &^ known; extra != 0 {
+		return fmt.Sprintf("%o+x%x", u, uint32(extra))
+	}
+	return fmt.Sprintf("%o", u)
+}
+
 func kindOf(m fs.FileMode) string {
 	switch {
 	case m&fs.ModeDir != 0:
@@ -248,7 +274,7 @@ func item(fsys scalibrfs.FS, p string, mode fs.FileMode, size int64) string {
 		_, _, _, _, tgt := image.VerifNodeC04(fsys, p)
 		c = hx.Hex(tgt)
 	}
-	return fmt.Sprintf("%s:%o:%d:%s", k, uint32(mode.Perm()), size, c)
+	return fmt.Sprintf("%s:%s:%d:%s", k, modeStr(mode), size, c)
 }
 
 func lookup(fsys scalibrfs.FS, p string) string {
@@ -263,7 +289,7 @@ func lookup(fsys scalibrfs.FS, p string) string {
 	}
 	if mode&fs.ModeSymlink != 0 {
 		// Stat follows the link (C17); the node itself is reported
-		return fmt.Sprintf("l:%o:%d:%s", uint32(mode.Perm()), size, hx.Hex(tgt))
+		return fmt.Sprintf("l:%s:%d:%s", modeStr(mode), size, hx.Hex(tgt))
 	}
 	if err != nil {
 		return "INCONSISTENT-stat-err"
@@ -454,8 +480,8 @@ func spell(r *rand.Rand, p string, dir bool) string {
 
 func whName(p string) string { return path.Join(path.Dir(p), ".wh."+path.Base(p)) }
 
-var fileModes = []int{0644, 0600, 0755, 0444}
-var dirModes = []int{0755, 0700, 0555, 0711}
+var fileModes = []int{0644, 0600, 0755, 0444, 0644, 0755, 04755, 02755, 06711, 01644}
+var dirModes = []int{0755, 0700, 0555, 0711, 0755, 01777, 02775, 03770, 04755}
 
 func sizeFor(r *rand.Rand, limit int64) int {
 	if limit <= 8192 {
@@ -514,9 +540,9 @@ func randLayer(r *rand.Rand, focus []string, limit int64, wild bool) []ent {
 		x := r.Intn(100)
 		switch {
 		case x < 33:
-			es = append(es, pe{p, ent{typ: 'd', name: spell(r, p, true), mode: dirModes[r.Intn(4)]}})
+			es = append(es, pe{p, ent{typ: 'd', name: spell(r, p, true), mode: dirModes[r.Intn(len(dirModes))]}})
 		case x < 63:
-			es = append(es, pe{p, ent{typ: 'f', name: spell(r, p, false), mode: fileModes[r.Intn(4)], size: sizeFor(r, limit), cid: r.Intn(26)}})
+			es = append(es, pe{p, ent{typ: 'f', name: spell(r, p, false), mode: fileModes[r.Intn(len(fileModes))], size: sizeFor(r, limit), cid: r.Intn(26)}})
 		case x < 80:
 			es = append(es, pe{p, ent{typ: 'f', name: spell(r, whName(p), false), mode: 0}})
 		case x < 88:
@@ -583,7 +609,7 @@ func randLayer(r *rand.Rand, focus []string, limit int64, wild bool) []ent {
 			for _, a := range ancestors(e.p) {
 				if !seen[a] && len(es) < 9 {
 					seen[a] = true
-					es = append(es, pe{a, ent{typ: 'd', name: spell(r, a, true), mode: dirModes[r.Intn(4)]}})
+					es = append(es, pe{a, ent{typ: 'd', name: spell(r, a, true), mode: dirModes[r.Intn(len(dirModes))]}})
 				}
 			}
 		}
@@ -642,7 +668,7 @@ func evolveLayer(r *rand.Rand, state map[string]simNode, focus []string, limit i
 						delete(state, q)
 					}
 				}
-				n = simNode{dir: true, mode: dirModes[r.Intn(4)]}
+				n = simNode{dir: true, mode: dirModes[r.Intn(len(dirModes))]}
 				state[a] = n
 				ops[a] = op{p: a, n: n} // also when this step had written a file there
 			}
@@ -662,7 +688,7 @@ func evolveLayer(r *rand.Rand, state map[string]simNode, focus []string, limit i
 				continue
 			}
 			touchParents(p)
-			n := simNode{mode: fileModes[r.Intn(4)], size: sizeFor(r, limit), cid: r.Intn(26)}
+			n := simNode{mode: fileModes[r.Intn(len(fileModes))], size: sizeFor(r, limit), cid: r.Intn(26)}
 			if int64(n.size) >= limit {
 				continue
 			}
@@ -676,7 +702,7 @@ func evolveLayer(r *rand.Rand, state map[string]simNode, focus []string, limit i
 				continue
 			}
 			touchParents(p)
-			n := simNode{dir: true, mode: dirModes[r.Intn(4)]}
+			n := simNode{dir: true, mode: dirModes[r.Intn(len(dirModes))]}
 			state[p] = n
 			ops[p] = op{p: p, n: n}
 		default: // rm -rf
